@@ -140,6 +140,35 @@ def r1_one_collector(ctx):
                 elif isinstance(name, ast.Attribute):
                     ok = name.attr == 'unique_callname'
                 rep.ob('C15.R1', ctx.loc(f, c), 'pytest item name', ok, 'item name is DocTest.unique_callname (the native identifier)' if ok else 'pytest items are not named by unique_callname', anchor=COLLECT)
+    if n_items == 0:
+        # the construction may be a helper method of the plugin (inlining bound 1): the name handed to it must be the unique callname
+        for n in g.nodes:
+            for c in node_calls(n):
+                r = ctx.res.resolve_call(f, c)
+                hs = r[1] if r[0] == 'repo' else (r[2] if r[0] == 'method' and len(r) > 2 else [])
+                for h in hs:
+                    if h.module is not f.module:
+                        continue
+                    cons = [x for x in walk_scope(h.node) if isinstance(x, ast.Call) and (ast.unparse(x.func).endswith('XDoctestItem.from_parent') or ast.unparse(x.func).endswith('XDoctestItem'))]
+                    if not cons:
+                        continue
+                    hp = [a.arg for a in h.node.args.args]
+                    off = 1 if h.cls is not None else 0
+                    for x in cons:
+                        nm = next((kw.value for kw in x.keywords if kw.arg == 'name'), x.args[0] if x.args else None)
+                        if not (isinstance(nm, ast.Name) and nm.id in hp):
+                            continue
+                        i = hp.index(nm.id) - off
+                        arg = c.args[i] if 0 <= i < len(c.args) else next((kw.value for kw in c.keywords if kw.arg == nm.id), None)
+                        n_items += 1
+                        ok = False
+                        if isinstance(arg, ast.Name):
+                            defs = rd.at(n, arg.id)
+                            ok = bool(defs) and all(isinstance(d.value, ast.Attribute) and d.value.attr == 'unique_callname' for d in defs)
+                        elif isinstance(arg, ast.Attribute):
+                            ok = arg.attr == 'unique_callname'
+                        rep.ob('C15.R1', ctx.loc(f, c), 'pytest item name (through %s)' % h.name, ok,
+                               'item name is DocTest.unique_callname (the native identifier)' if ok else 'pytest items are not named by unique_callname', anchor=COLLECT)
     rep.floor('C15.R1', 'pytest item constructions', n_items, 1)
 
 
